@@ -161,6 +161,9 @@ def gdb_locus(binary, args, stdin_path=None, cwd=None, seconds=4, depth=3, pass_
         # stable key for a hang: the pass called directly by the driver (sampling instant varies below it)
         for i, fn in enumerate(frames):
             if fn in ('uncrustify_file', 'uncrustify_start', 'do_source_file') and i > 0:
-                return 'pass ' + frames[i - 1]
+                # the pass, and the function the pass called (skipping list/text helpers): a livelock sits in a loop of that function,
+                # the sampling instant varies only below it
+                callee = next((f for f in reversed(frames[:i - 1]) if not f.startswith(('Chunk::', 'UncText', 'ChunkStack', 'log_', 'operator')) and f not in ('void', 'int', 'bool')), None)
+                return 'pass ' + frames[i - 1] + (' > ' + callee if callee else '')
         return 'pass ' + (frames[-1] if frames else 'no-frames')
     return ' < '.join(frames[:depth]) or 'no-frames'
